@@ -1,2 +1,7 @@
 import LP.Props.C13
-#print axioms LP.C13_placeholder
+#print axioms LP.cmpUpper_sem
+#print axioms LP.cmpLower_sem
+#print axioms LP.VI.C13_cmp
+#print axioms LP.FSet.intersectLoop_sem
+#print axioms LP.FSet.C13_intersect
+#print axioms LP.FSet.C13_contains_interval
